@@ -263,7 +263,7 @@ Lemma good_send_tail : forall abort m rest out w k, ent_ok w ->
   good abort w (send_tail abort m rest out w k).
 Proof.
   intros abort m rest out w k He Hm Hs Hc Hk. unfold send_tail.
-  destruct ((m_ty m =? T_TESTREQ) && negb (treq w)).
+  destruct ((m_ty m =? T_TESTREQ) && (negb (treq w) || negb (m_id m =? 0))).
   { apply good_raise; auto; discriminate. }
   destruct Hm as [Hn|[(kk&f&Hin&->)|(b&n&->&Hbn)]].
   - unfold is_new in Hn. apply andb_true_iff in Hn. destruct Hn as [Hty Hpd].
